@@ -171,3 +171,28 @@ func main() {
 	check(err)
 	check(os.WriteFile(filepath.Join(*out, "meta.json"), b, 0o644))
 }
+
+// writeAnaCross: one Coq case per module requiring the observed analysis to be the one the analysis model builds from
+// the facts (Corr/AnaCross.v), for the checks whose own cases do not carry the analysis.
+func (e *env) writeAnaCross(prefix string, specs []*modSpec, obs []*obsResult) {
+	var cases []string
+	var inputs []interface{}
+	flush := func() {
+		if len(cases) == 0 {
+			return
+		}
+		e.writeCasesFn(fmt.Sprintf("cases_%s_ana_%d", prefix, len(e.m.CaseFiles)), anaHeader+"From GM Require Corr.AnaCross.\n", "AnaCross.mismatches", cases, inputs)
+		cases, inputs = nil, nil
+	}
+	for i, o := range obs {
+		if o == nil || o.LoadErr != "" || o.Outcome != "ok" || o.Facts == "" || o.Ana == "" || o.Enums == "" {
+			continue
+		}
+		cases = append(cases, fmt.Sprintf("((%s : prog),\n (%s : list enum),\n (%s : ana_obs))", o.Facts, o.Enums, o.Ana))
+		inputs = append(inputs, map[string]interface{}{"module": specs[i], "obligation": "the observed analysis is the one the analysis model builds from the go/types facts (Corr/AnaCross.v)"})
+		if len(cases) == 4 {
+			flush()
+		}
+	}
+	flush()
+}
